@@ -127,7 +127,7 @@ func cacheChildMain(args []string) {
 			os.WriteFile(*traceF, []byte(strings.Join(trace, "\n")), 0o644)
 		}
 	}
-	pausePrefix, pauseN, pauseSeen := "", 0, 0
+	pausePrefix, pauseN, pauseSeen := "", 0, 0 // an empty prefix matches every marker
 	if *pause != "" {
 		i := strings.LastIndex(*pause, ":")
 		pausePrefix = (*pause)[:i]
@@ -141,7 +141,7 @@ func cacheChildMain(args []string) {
 			os.Exit(exitCrash)
 		}
 		wait := false
-		if pausePrefix != "" && strings.HasPrefix(name, pausePrefix) {
+		if *pause != "" && strings.HasPrefix(name, pausePrefix) {
 			pauseSeen++
 			if pauseSeen == pauseN {
 				writeTrace()
